@@ -254,7 +254,7 @@ func runC19(cfg *vc.Config, rep *vc.Report) {
 		}
 		_ = gr
 	}
-	cfg.Cases(40000, 400000, func(i int, r *vc.Rand) {
+	cfg.Cases(40000, 3000000, func(i int, r *vc.Rand) {
 		check(i, genRequest(r, routes))
 	})
 	// non-vacuity of the control run: every write method through v1, v2 and bulk
@@ -336,7 +336,7 @@ func methodOf(action string) string {
 func runC18(cfg *vc.Config, rep *vc.Report) {
 	b := &MonBackend{}
 	h := newRouter(b, false)
-	cfg.Cases(20000, 120000, func(i int, r *vc.Rand) {
+	cfg.Cases(20000, 1000000, func(i int, r *vc.Rand) {
 		n := r.Range(1, 12)
 		cont := r.Chance(1, 2)
 		failPct := vc.Pick(r, []int{0, 10, 30, 60})
